@@ -46,7 +46,7 @@ STUBS = ('stub instructions / actor subclassing the public base classes (the pro
 
 # ----------------------------------------------------------------------------- the documented protocol (oracle)
 
-FAMILIES = ('conf', 'parse', 'sym', 'pre', 'setup-main', 'post', 'prepare', 'execute', 'ba-main', 'assert-main')
+FAMILIES = ('conf', 'parse', 'sym', 'pre', 'setup-main', 'post', 'exe-input', 'prepare', 'execute', 'ba-main', 'assert-main')
 
 
 _CANON = {}
@@ -96,6 +96,10 @@ def _canonical(n) -> List[Tuple[tuple, str]]:
         cells.append((('ba', 'post', i), 'post'))
     for i in range(nassert):
         cells.append((('assert', 'post', i), 'post'))
+    if nsetup > 0:
+        # validation of the input to the action to check (the stdin object that [setup] stored in the settings);
+        # the stub world has such an object iff it has a setup instruction (the first one stores it)
+        cells.append((('act', 'exe-input', 0), 'exe-input'))
     cells.append((('act', 'prepare', 0), 'prepare'))
     cells.append((('act', 'execute', 0), 'execute'))
     for i in range(nba):
@@ -107,7 +111,7 @@ def _canonical(n) -> List[Tuple[tuple, str]]:
 
 PRE_SANDBOX_FAMILIES = ('conf', 'parse', 'sym', 'pre')
 
-PREVIOUS_PHASE_NAME = {'setup-main': 'SETUP', 'post': 'SETUP', 'prepare': 'SETUP', 'execute': 'ACT',
+PREVIOUS_PHASE_NAME = {'setup-main': 'SETUP', 'post': 'SETUP', 'exe-input': 'SETUP', 'prepare': 'SETUP', 'execute': 'ACT',
                        'ba-main': 'BEFORE_ASSERT', 'assert-main': 'ASSERT', None: 'ASSERT'}
 
 
@@ -135,7 +139,7 @@ def partial_status_name(cell, kind: int) -> str:
 PHASE_IDENT = {'conf': 'conf', 'setup': 'setup', 'act': 'act', 'ba': 'before-assert', 'assert': 'assert',
                'cleanup': 'cleanup'}
 STEP_IDENT = {'sym': '1:validate-symbols', 'pre': '2:validate-pre-sds', 'post': '3:validate-post-setup',
-              'main': '9:main', 'parse': '0:act-parse', 'prepare': '5:act-prepare', 'execute': '6:act-execute'}
+              'main': '9:main', 'parse': '0:act-parse', 'exe-input': '4:act-validate-exe-input', 'prepare': '5:act-prepare', 'execute': '6:act-execute'}
 
 
 def full_status_name(mode: int, partial: Optional[str]) -> str:
@@ -382,7 +386,6 @@ def obligations(tier: str) -> List[Ob]:
             entry='full_execution.execution.execute(ExecutionConfiguration, ConfigurationBuilder, is_keep_sandbox, TestCase)',
             outside=('faults inside exactly_lib\'s own bookkeeping (sandbox creation failing, ...): only faults injected '
                      'through the instruction / actor API',
-                     'act/validate-exe-input failures (stdin settings)',
                      'more than one fault among the non-cleanup steps other than "every later step fails the same way"'),
         ))
     execute_idx = [i for i, (c, _) in enumerate(canonical((1, 1, 1, 1, 1))) if c == ('act', 'execute', 0)][0]
